@@ -170,7 +170,36 @@ func Ite(c, a, b Term) Term {
 	return Term{"(ite " + c.S + " " + a.S + " " + b.S + ")", a.Sort}
 }
 
+func isNumLit(s string) bool {
+	if s == "" {
+		return false
+	}
+	for _, c := range s {
+		if c < '0' || c > '9' {
+			return false
+		}
+	}
+	return true
+}
+
 func Bin(sort Sort, op string, a, b Term) Term {
+	if sort == SInt && (op == "+" || op == "-") {
+		if b.S == "0" {
+			return a
+		}
+		if op == "+" && a.S == "0" {
+			return b
+		}
+		if isNumLit(a.S) && isNumLit(b.S) && len(a.S) < 18 && len(b.S) < 18 {
+			var x, y int64
+			fmt.Sscan(a.S, &x)
+			fmt.Sscan(b.S, &y)
+			if op == "+" {
+				return IntLit(x + y)
+			}
+			return IntLit(x - y)
+		}
+	}
 	return Term{"(" + op + " " + a.S + " " + b.S + ")", sort}
 }
 
@@ -250,6 +279,7 @@ const preludeInt = `
 (declare-fun str_lower (Str) Str)
 (declare-fun str_hasprefix (Str Str) Bool)
 (declare-fun str_lt (Str Str) Bool)
+(declare-fun str_fold (Str Str) Bool)
 (declare-fun bytes2str ((Array Int Int) Int Int) Str)
 (declare-const str_empty Str)
 (assert (= (strlen str_empty) 0))
